@@ -141,6 +141,20 @@ fn ob_c11_char_casing(c: char) {
     }
 }
 
+//@ob C11.char.casing.titlecase
+//@ props: C11 C05
+//@ kind: complete
+//@ unwind: 14
+//@ fns: src/lib.rs::CharExt::has_casing
+//@ pre: any Unicode title case letter (general category Lt: U+01C5 U+01C8 U+01CB U+01F2, U+1F88..8F, U+1F98..9F, U+1FA8..AF, U+1FBC U+1FCC U+1FFC -- 31 scalar values, enumerated by case split)
+//@ post: has_casing(c): these letters are neither lowercase nor uppercase but fold to both, so a case-insensitive literal made of them matches other paths and must report variant text (the quick-tier slice of C11.char.casing, which ranges over all of char but needs ~400 s)
+fn ob_c11_char_casing_titlecase(u: u32) {
+    vassume!(matches!(u, 0x1c5 | 0x1c8 | 0x1cb | 0x1f2 | 0x1f88..=0x1f8f | 0x1f98..=0x1f9f | 0x1fa8..=0x1faf | 0x1fbc | 0x1fcc | 0x1ffc));
+    vcover!(u == 0x1ffc);
+    let c = char::from_u32(u).unwrap();
+    assert!(CharExt::has_casing(c), "C11 a title case letter has casing");
+}
+
 //@ob C18.lib.canary
 //@ props: C18 C11
 //@ kind: canary
